@@ -66,6 +66,9 @@ def ev(t, env):
         if t[1] in env:
             return env[t[1]]
         return ev(t[1], env)
+    if k == 'upd' and t[1] == 'fld' and t[3] == '0':
+        # single-field wrapper (Bitboard) whose field 0 was overwritten
+        return ev(t[4], env)
     raise Unevaluable(t)
 
 
